@@ -106,7 +106,7 @@ NOT_APPLICABLE = {
     "C02": "pure function of a byte string (no stream, timer, shared state or fault in it): not a simulation target; needs exhaustive enumeration / a memory checker",
     "C03": "pure function of a packet model / byte string: needs an independent reference decoder and boundary-directed input generation, not a scheduler",
     "C04": "pure function of a segment set (permuting input lists is input permutation, not scheduling); its forwardability facet is simulated under C01",
-    "C08": "pure predicate over (datagram, peer address); the only I/O it meets (TunnelGateway::start_server) is welded to a real tokio UdpSocket with recvmmsg and has no transport seam",
+    "C08": "pure predicate over (datagram, peer address); the only I/O it meets (TunnelGateway::start_server) is welded to a real tokio UdpSocket with recvmmsg, its body inline in the loop, and has no transport seam (the SCMP answers the gateway builds for refused datagrams are judged under C14 through hook H11)",
     "C10": "predicate over strings x wall-clock second; the validity window is checked inside the jsonwebtoken dependency against the process clock (no seam), the JWKS path is real HTTP",
     "C12": "pure functions of a path or packet (view/model agreement, failure atomicity of one call): no schedule, clock or fault to simulate",
     "C15": "pure parsers/printers of address text forms",
@@ -160,7 +160,7 @@ def main():
         "version": 1,
         "setup_cmd": "./check build",
         "hooks": {
-            "guard": "cargo feature `verif-hooks` (crates scion-sdk-utils and scion-stack), off by default",
+            "guard": "cargo feature `verif-hooks` (crates scion-sdk-utils, scion-stack, snap-dataplane and snap-control), off by default",
             "enable": "the sim workspace depends on /repo's crates by path with features=[\"verif-hooks\"]; ./check rebuilds from /repo's working tree",
             "baseline_off_cmd": BASELINE_OFF,
             "source_commits": commits,
